@@ -57,7 +57,8 @@ def gen_case(rng, oversize=False):
                          gaps=rng.choice([0, 0, 0, 1, 2, 5]),
                          delay=rng.choice([0, 0, 0, 0.0002, 0.001, 0.003]),
                          cancel=rng.choice([None] * 7 + ["early", "queued",
-                                                         "flight", "late"]),
+                                                         "flight", "late",
+                                                         "atput", "atput"]),
                          cmd=rng.choice([4, 5, 1, 7])))
     if oversize:
         k = rng.randrange(max(1, nreq - 3))
@@ -131,10 +132,19 @@ def run_history(case):
                     loop.call_later(delay * 2, ec.datagram_received,
                                     bytes(out), None)
         orig_put = ec.send_queue.put_nowait
+        tasks = {}
+        atput = {}
 
         def put(item):
-            log["enq"].append(((item[3] & 0xffff) << 16) | item[4])
-            return orig_put(item)
+            rid = ((item[3] & 0xffff) << 16) | item[4]
+            log["enq"].append(rid)
+            r = orig_put(item)
+            if atput.get(rid) and rid in tasks:
+                # cancelled while the datagram sits in the send queue (the
+                # caller gives up before the send loop has seen it)
+                tasks[rid].cancel()
+                log["atput"] = log.get("atput", 0) + 1
+            return r
         ec.send_queue.put_nowait = put
         ec.connection_made(Tr())
         loop.on_iteration_user = None
@@ -156,7 +166,9 @@ def run_history(case):
             return await ec.roundtrip(ECCmd(r["cmd"]), pos, rid & 0xffff,
                                       data=bytes((rid + i) & 0xff for i in
                                                  range(r["size"])))
-        tasks = {}
+        for r in case["reqs"]:
+            if r["cancel"] == "atput":
+                atput[r["id"]] = True
         for r in case["reqs"]:
             t = asyncio.ensure_future(client(r))
             tasks[r["id"]] = t
